@@ -26,6 +26,16 @@ RULE = ("Replacement cases (C04 generator, fraction 1, replacement with >= 1 new
 # lever ratio) ~ 1e-6 rad, i.e. up to ~1e-5 A at a few A lever arm.  This is numerical noise far below any tolerance a
 # user can request meaningfully (and close to the %10.6f print precision), so it is allowed for explicitly.
 ABS_SLACK = 2e-5
+# The same arccos step leaves the aligned pattern axis tilted by up to ~sqrt(2 ulp) ~ 1.5e-8 rad.  For a pattern that is
+# almost collinear the orientation about the axis is taken from an atom a hair off the axis, so that tilt is amplified by
+# the lever ratio of the pattern (amp_factor): numerical noise ~ tilt * size * amp, which reaches a few 1e-5 A when the
+# orientation atom is 0.002 A off an axis 5 A long.  Allowed for explicitly, with a factor 3 margin.
+NUM_TILT = 5e-8
+
+
+def num_slack(case):
+    pts = np.array(list(case["ppos"]) + list(case["rpos"]), float)
+    return ABS_SLACK + NUM_TILT * (geom.diameter(pts) if len(pts) > 1 else 0.0) * amp_factor(case)
 
 ASSUMPTIONS = ["absolute numerical slack of 2e-5 A on top of the tolerance-proportional bound (arccos conditioning)",
                "first-order lever-arm bound for the amplification of per-atom noise by the anchored construction",
@@ -91,6 +101,7 @@ def check_result(case, groups, new, stats, label, k=None):
         if len(copies[j]) != K:
             raise Violation("block-composition", "%s: %d copies of new atom %d for %d replaced matches" % (label, len(copies[j]), j, K))
     amp = amp_factor(case)
+    slack = num_slack(case)
     S = np.array(case["ppos"], float)
     P = np.array([case["ppos"][i] for i in range(len(case["ppos"]))] + [case["rpos"][j] for j in r_only], float)
     offs = geom.image_block(2) @ cell
@@ -100,7 +111,7 @@ def check_result(case, groups, new, stats, label, k=None):
     def candidates(o, j, used):
         """unused copies of new atom j (unwrapped next to the match) that have the pattern's distances to the matched atoms"""
         Y = o["pos"]
-        tol = 2 * (math.sqrt(len(P)) * 2.0 * o["maxdev"] * amp + ABS_SLACK) + 1e-3
+        tol = 2 * (math.sqrt(len(P)) * 2.0 * o["maxdev"] * amp + slack) + 1e-3
         out = []
         for ci, p in enumerate(copies[j]):
             if (j, ci) in used:
@@ -116,7 +127,7 @@ def check_result(case, groups, new, stats, label, k=None):
     def fit(o, chosen):
         T = np.vstack([o["pos"], np.array([q for _, q in chosen])])
         R, t, rmsd, maxdev = geom.kabsch(P, T)
-        bound = math.sqrt(len(P)) * 2.0 * o["maxdev"] * amp + ABS_SLACK
+        bound = math.sqrt(len(P)) * 2.0 * o["maxdev"] * amp + slack
         if maxdev > bound and (best_fail[0] is None or maxdev - bound < best_fail[0][0]):
             best_fail[0] = (maxdev - bound, maxdev, bound, o["maxdev"], [q.tolist() for _, q in chosen])
         return maxdev <= bound
@@ -266,7 +277,7 @@ def oracle(case, stats):
     meta = case["meta"]
     if single and not collinear:
         eps = max(g["orderings"][0]["maxdev"] for g in groups.values())
-        tol = 2 * (math.sqrt(len(ppos) + len(case["rpos"])) * 2.0 * eps * amp_factor(case) + ABS_SLACK)
+        tol = 2 * (math.sqrt(len(ppos) + len(case["rpos"])) * 2.0 * eps * amp_factor(case) + num_slack(case))
         cell = np.array(case["cell"])
         A = [(a["el"], a["pos"]) for a in repl.resolved_atoms(new)]
         B = [(a["el"], a["pos"]) for a in repl.resolved_atoms(new2)]
